@@ -236,6 +236,35 @@ func checkC12(c *c12Case) (msg string, nontrivial bool, labels []string) {
 	if got, want := fmt.Sprint(in.S.Pairs()), fmt.Sprint(modelPairs(model)); got != want {
 		return fmt.Sprintf("after %q the store is %s, expected %s", q, got, want), true, labels
 	}
+	// round 10: the same statement against a store that refuses the write.
+	// The write is attempted once and only once however the plan is polled
+	// on (each poll separately, whatever it answers), and nothing is stored.
+	if len(c.Polls) > 1 {
+		in2 := lib.NewInstr(lib.NewStore(c.Pairs))
+		in2.FailAt = 0
+		if b2 := lib.Build(q, in2, cfg); b2.Plan != nil && b2.Panic == "" {
+			lib.SetGlobals(cfg)
+			sawErr := false
+			for _, pl := range c.Polls {
+				_, e, pan2 := pollPlan(b2.Plan, string(pl))
+				if pan2 != "" {
+					return fmt.Sprintf("executing %q (polls %s) against a store that refuses the write panicked: %s", q, c.Polls, pan2), true, labels
+				}
+				sawErr = sawErr || e != nil
+			}
+			calls2 := in2.Calls()
+			if !sawErr {
+				return fmt.Sprintf("statement %q (polls %s): the store refused the write, no poll reported an error; storage saw %+v", q, c.Polls, calls2), true, labels
+			}
+			if len(calls2) != 1 {
+				return fmt.Sprintf("statement %q (polls %s): the store refused the write and the statement reported it, the write must not be issued again; storage saw %+v", q, c.Polls, calls2), true, labels
+			}
+			if got, want := fmt.Sprint(in2.S.Pairs()), fmt.Sprint(lib.NewStore(c.Pairs).Pairs()); got != want {
+				return fmt.Sprintf("statement %q (polls %s): the store refused the write but changed: %s -> %s", q, c.Polls, want, got), true, labels
+			}
+			labels = append(labels, "refused-write-re-polled")
+		}
+	}
 	// polls after the first one return end-of-stream
 	for i, r := range results {
 		if i == 0 {
